@@ -268,14 +268,16 @@ def d5(cx: Cx, ob: Ob) -> None:
         ob.site(f"{where(fn, ev.line)} {fn.qualname}", "store guarded by the known-URI skip")
         ok = False
         for g in ctx.guards:
-            if g.kind != "guard" or g.b is not False:
+            if g.kind != "guard":
                 continue
-            atoms = g.a[1] if op(g.a) == "and" else (g.a,)
+            atoms = g.a[1] if (op(g.a) == "and" and g.b is False) else (g.a,)
             for a in atoms:
-                if op(a) == "call" and op(a[1]) == "attr" and a[1][1] == conv and a[1][2] == "is_uri" and a[2] == (uri,):
+                if g.b is False and op(a) == "call" and op(a[1]) == "attr" and a[1][1] == conv and a[1][2] == "is_uri" and a[2] == (uri,):
                     ok = True
-                if op(a) == "cmp" and a[1] in ("is not", "!=") and is_const(a[3], None) and op(a[2]) == "call" and op(a[2][1]) == "attr" and a[2][1][1] == conv and a[2][1][2] in ("compress", "parse_uri") and a[2][2][:1] == (uri,):
-                    ok = True
+                # `converter.compress(uri) is None` holds (canonical guard form) / `... is not None` fails
+                if op(a) == "cmp" and is_const(a[3], None) and op(a[2]) == "call" and op(a[2][1]) == "attr" and a[2][1][1] == conv and a[2][1][2] in ("compress", "parse_uri") and a[2][2][:1] == (uri,):
+                    if (a[1] in ("is", "==") and g.b is True) or (a[1] in ("is not", "!=") and g.b is False):
+                        ok = True
         if not ok:
             ob.violate(
                 fn.qualname,
